@@ -43,6 +43,10 @@ impl<K: Clone + PartialEq + Eq + Hash + std::fmt::Debug + std::cmp::PartialOrd, 
         key: K,
         f: F,
     ) -> AsyncLruCacheEntry<V> {
+        if let Some(entry) = self.take_back_evicting(&key) {
+            return entry;
+        }
+
         let mut w = self.wmap.lock().unwrap();
         let r = self.rmap.read().unwrap();
 
@@ -142,13 +146,29 @@ impl<K: Clone + PartialEq + Eq + Hash + std::fmt::Debug + std::cmp::PartialOrd, 
 
     #[inline(always)]
     pub(crate) fn get(&self, key: K) -> Option<AsyncLruCacheEntry<V>> {
-        let map = self.rmap.read().unwrap();
-        if let Some(entry) = map.get(&key) {
-            self.update_lru(entry);
-            Some(Arc::clone(entry))
-        } else {
-            None
+        {
+            let map = self.rmap.read().unwrap();
+            if let Some(entry) = map.get(&key) {
+                self.update_lru(entry);
+                return Some(Arc::clone(entry));
+            }
         }
+
+        self.take_back_evicting(&key)
+    }
+
+    /// A dirty entry which was evicted holds the only up-to-date copy until
+    /// its write-back is over. If it is looked up meanwhile it goes back
+    /// into the cache: loading it from disk now would yield a stale second
+    /// copy.
+    fn take_back_evicting(&self, key: &K) -> Option<AsyncLruCacheEntry<V>> {
+        let evicting = self.evicting.lock().unwrap();
+        let (_, entry) = evicting.iter().find(|(k, _)| k == key)?;
+        let mut map = self.rmap.write().unwrap();
+        let entry = map.entry(key.clone()).or_insert_with(|| Arc::clone(entry));
+
+        self.update_lru(entry);
+        Some(Arc::clone(entry))
     }
 
     pub(crate) fn is_empty(&self) -> bool {
